@@ -49,7 +49,7 @@ def unary_cases(tier):
             for dt in ("float32", "float64"):
                 out.append({"kind": "unary", "op": op, "target": t, "dtype": dt, "mode": "quantised"})
     else:
-        CH = 1 << 23
+        CH = 1 << 20
         for op, t in ops:
             for start in range(0, MAXBITS + 1, CH):
                 out.append({"kind": "unary", "op": op, "target": t, "dtype": "float32", "mode": "all", "start": start, "n": min(CH, MAXBITS + 1 - start)})
@@ -196,7 +196,7 @@ def run(tier, seed):
     for c in cases:
         nx += len(xs_for(c)) if c["kind"] == "unary" and c["mode"] == "quantised" else (2 * c["n"] if c["kind"] == "unary" else len(GRID) ** c["L"])
     cov = {"evaluations": r["evaluations"], "distinct_nontrivial": r["distinct_nontrivial"], "inputs_checked": int(nx),
-           "rule": ("element-wise ops x targets: " + ("every finite float32 with |x| <= 1e4 (all %d bit patterns per sign, chunks of 2^23) " % (MAXBITS + 1)
+           "rule": ("element-wise ops x targets: " + ("every finite float32 with |x| <= 1e4 (all %d bit patterns per sign, chunks of 2^20) " % (MAXBITS + 1)
                     if tier == "thorough" else "every float32 with |x| <= 1e4 whose low 12 mantissa bits are zero plus +-64 ulps around 12 thresholds, ")
                     + "values and gradients, float32 and float64; row ops: every row of length 2 and 3 over a 49-value logit grid "
                       "(0, +-1e-3 ... +-1e4) x every label x every basis upstream gradient x both dtypes x functional and module forms; "
